@@ -268,6 +268,11 @@ func init() {
 	reg(vr+"Stop", func(ex *Exec, fn *ssa.Function, args []Value) Value {
 		panic(pathEnd{endStop, "stop"})
 	})
+	reg(vr+"Unsupported", func(ex *Exec, fn *ssa.Function, args []Value) Value {
+		// the harness met something it cannot model: the path is inconclusive (never a pass, never a violation)
+		ex.unsupported("harness: " + ex.concreteStrArg(args[0], "message"))
+		return nil
+	})
 	reg(vr+"Tier", func(ex *Exec, fn *ssa.Function, args []Value) Value {
 		return ex.tc.BV(uint64(ex.w.P.tier), 64)
 	})
